@@ -20,8 +20,9 @@ VARIABLES reg,        \* canonical path -> stream | None
           status,     \* stream -> "new" | "ok" | "closed"
           cons,       \* stream -> set of consumer kinds attached
           retiring,   \* stream -> a zero-consumer close task is pending for it
+          hls,        \* stream -> "no" | "m3u8" | "segment": what an HLS client fetched last, recently
           hist
-vars == <<reg, status, cons, retiring, hist>>
+vars == <<reg, status, cons, retiring, hls, hist>>
 
 Live(s) == status[s] = "ok"
 Mapped == {p \in Paths : reg[p] # None}
@@ -52,7 +53,7 @@ Regist(s) ==
      IN /\ reg' = [reg EXCEPT ![p] = s]
         /\ status' = [status EXCEPT ![s] = "ok", ![old] = IF closeOld THEN "closed" ELSE @]
         /\ retiring' = [retiring EXCEPT ![old] = IF old # None /\ old # s /\ ~closeOld THEN TRUE ELSE @]
-        /\ cons' = cons
+        /\ cons' = cons /\ hls' = hls
   /\ Rec("regist", s, "", FALSE)
 
 (* "unregistering a retired stream never removes its successor" *)
@@ -61,7 +62,7 @@ Unregist(s) ==
   /\ reg' = CloseEffect({s}, reg)
   /\ status' = [status EXCEPT ![s] = "closed"]
   /\ cons' = [cons EXCEPT ![s] = {}]
-  /\ retiring' = [retiring EXCEPT ![s] = FALSE]
+  /\ retiring' = [retiring EXCEPT ![s] = FALSE] /\ hls' = hls
   /\ Rec("unregist", s, "", FALSE)
 
 (* administrative delete / any direct Stream.Close(): "a closed ... stream is never returned by lookup" *)
@@ -70,46 +71,52 @@ Close(s) ==
   /\ reg' = CloseEffect({s}, reg)
   /\ status' = [status EXCEPT ![s] = "closed"]
   /\ cons' = [cons EXCEPT ![s] = {}]
-  /\ retiring' = [retiring EXCEPT ![s] = FALSE]
+  /\ retiring' = [retiring EXCEPT ![s] = FALSE] /\ hls' = hls
   /\ Rec("close", s, "", FALSE)
 
 Attach(s, k) ==
   /\ status[s] = "ok" /\ k \notin cons[s]
   /\ cons' = [cons EXCEPT ![s] = @ \cup {k}]
-  /\ UNCHANGED <<reg, status, retiring>>
+  /\ UNCHANGED <<reg, status, retiring, hls>>
   /\ Rec("attach", s, k, FALSE)
 (* C03: "including one that is attaching at that very moment": a consumer that attaches to a stream that
    has already ended is released at once (it never counts as attached)                           *)
 AttachDead(s, k) ==
   /\ status[s] = "closed"
-  /\ UNCHANGED <<reg, status, cons, retiring>>
+  /\ UNCHANGED <<reg, status, cons, retiring, hls>>
   /\ Rec("attach", s, k, TRUE)
 Detach(s, k) ==
   /\ k \in cons[s]
   /\ cons' = [cons EXCEPT ![s] = @ \ {k}]
-  /\ UNCHANGED <<reg, status, retiring>>
+  /\ UNCHANGED <<reg, status, retiring, hls>>
   /\ Rec("detach", s, k, FALSE)
 
 (* the periodic zero-consumer task of a retired stream: "closed for idleness only
    when it has no attached consumer of any protocol and no recent HLS access"  *)
 HasHls(s) == s # "s3"          \* s3 is a video-only stream: no AAC audio, hence no HLS output
-IdleTick(s, hlsRecent) ==
+(* an HLS client fetches the playlist or a segment of s *)
+HlsAccess(s, how) ==
+  /\ HasHls(s) /\ status[s] = "ok"
+  /\ hls' = [hls EXCEPT ![s] = how]
+  /\ UNCHANGED <<reg, status, cons, retiring>>
+  /\ Rec("hls", s, how, FALSE)
+IdleTick(s) ==
   /\ retiring[s] /\ status[s] = "ok"
-  /\ hlsRecent => HasHls(s)
-  /\ IF cons[s] = {} /\ ~hlsRecent
+  /\ IF cons[s] = {} /\ hls[s] = "no"
      THEN /\ reg' = CloseEffect({s}, reg)
           /\ status' = [status EXCEPT ![s] = "closed"]
           /\ retiring' = [retiring EXCEPT ![s] = FALSE]
      ELSE UNCHANGED <<reg, status, retiring>>
-  /\ cons' = cons
-  /\ Rec("idle", s, "", hlsRecent)
+  /\ cons' = cons /\ hls' = hls
+  /\ Rec("idle", s, hls[s], hls[s] # "no")
 
 Init == /\ reg = [p \in Paths |-> None] /\ status = [s \in Streams |-> "new"]
-        /\ cons = [s \in Streams |-> {}] /\ retiring = [s \in Streams |-> FALSE] /\ hist = <<>>
+        /\ cons = [s \in Streams |-> {}] /\ retiring = [s \in Streams |-> FALSE] /\ hls = [s \in Streams |-> "no"] /\ hist = <<>>
 Next == /\ Len(hist) < MaxHist
         /\ \E s \in Streams : \/ Regist(s) \/ Unregist(s) \/ Close(s)
                               \/ \E k \in Kinds : Attach(s, k) \/ Detach(s, k) \/ AttachDead(s, k)
-                              \/ \E b \in BOOLEAN : IdleTick(s, b)
+                              \/ IdleTick(s)
+                              \/ \E how \in {"m3u8", "segment"} : HlsAccess(s, how)
 
 Emit == (Len(hist) >= EmitAt) => PrintT(<<"@H", ToJson([hist |-> hist])>>)
 
@@ -118,6 +125,6 @@ OneLivePerPath == \A p \in Paths : reg[p] # None => (Live(reg[p]) /\ PathOf(reg[
 NeverReturnsClosed == \A p \in Paths : reg[p] # None => status[reg[p]] = "ok"
 (* a live stream that is registered-but-not-mapped is retiring *)
 LiveUnmappedIsRetiring == \A s \in Streams : (Live(s) /\ reg[PathOf(s)] # s) => retiring[s]
-View == <<reg, status, cons, retiring>>
+View == <<reg, status, cons, retiring, hls>>
 EmitEdge == PrintT(<<"@H", ToJson([hist |-> hist'])>>)
 ================================================================================
